@@ -127,11 +127,18 @@ def run_msg_base(seed_i, tier, part, directed=True):
     c = part["counters"]
     c[f"knob:enc={base['encoding']},hex={int(base['hex_bitmap'])},cfg={'packaged' if base['config'] == 'packaged' else 'generated'}"] += 1
     part["runs"] += 1
+    hangs = 0
     h = hashlib.sha256(canon(base).encode())
     for fl in decfam.plan_message_faults(base, clean, rd0, tier, rng, directed=directed):
         b = apply_faults(clean, fl)
         scn = dict(base, faults=fl)
         _, out, _, enc, hexb = corrupt.run_message(scn, b)
+        if out.kind == "budget":
+            hangs += 1
+            if hangs >= 3:
+                # non-termination is C07's verdict; every further case of this base would burn a whole budget
+                c["probe:base_abandoned_after_repeated_nontermination"] += 1
+                break
         fails, cls = judge_c08(b, out, cfg, enc, hexb)
         part["evals"] += 1
         part["steps"] += out.steps
@@ -144,7 +151,7 @@ def run_msg_base(seed_i, tier, part, directed=True):
             part["sigs"].add(sig64(hashlib.sha1(b).digest(), cls, oc))
         h.update(f"{cls},{out.kind},{len(fails)};".encode())
         _record(part, fails, scn)
-    if base["config"] == "packaged":
+    if base["config"] == "packaged" and hangs < 3:
         cf, nev = judge_churn(dict(base, faults=[], churn={"iterations": 40}))
         part["evals"] += nev
         c["fault:configuration_object_churn"] += nev
@@ -164,6 +171,7 @@ def run_file_base(seed_i, tier, part):
     cfg = msgcodec.effective_cfg(base["config"])
     part["runs"] += 1
     c = part["counters"]
+    fhangs = 0
     for k in range(len(stored)):
         rec = stored[k][4:]
         rd = refiso.ref_read(rec, cfg, base["encoding"], False)
@@ -172,8 +180,11 @@ def run_file_base(seed_i, tier, part):
         plans = list(faults.numeral_faults(rd.spans, base["encoding"])) + list(faults.splice_faults(rec, rd.spans, base["encoding"])) \
             + faults.consistent_edits(rec, rd.spans, base["encoding"], cfg, False, rng)
         for fl in rng.sample(plans, min(len(plans), 25 if tier == "quick" else 100)):
+            if fhangs >= 3:
+                break
             scn = dict(base, rec_faults=[{"record": k + 1, "faults": fl}], reader="IpmReader")
             fails, classes, out = judge_file(scn)
+            fhangs += 1 if out.kind == "budget" else 0
             part["evals"] += 1
             part["steps"] += out.steps
             part["events"] += 1
